@@ -1,29 +1,41 @@
 #!/bin/bash
-# try_mutant.sh <seeded-dir> <profiles> [n] : in an isolated scratch worktree of /repo with the patch
-# applied, build a private copy of the harness against it and run diffrun; nothing in /repo or /verif/build changes.
+# try_mutant.sh <seeded-dir> <what> [n]
+#   <what> = comma-separated diffrun profiles, or sys:<mode>, or wire:<mode>
+# In an isolated scratch worktree of /repo with the patch applied, build a private copy of the harness
+# (and, for wire modes, the server binary) against it and run the check; nothing in /repo or /verif/build changes.
 set -u
-D=$1; PROF=$2; N=${3:-300}
+D=$1; WHAT=$2; N=${3:-300}
 export GOFLAGS=-mod=mod GOPROXY=off GOSUMDB=off GOTOOLCHAIN=local CGO_ENABLED=1
 P=$(python3 -c "import json;print(json.load(open('$D/meta.json'))['property'])")
 W=$(mktemp -d /tmp/trymut-XXXX)
+cleanup() { git -C /repo worktree remove --force $W/repo 2>/dev/null; rm -rf $W; }
 git -C /repo worktree add -q --detach $W/repo HEAD || exit 2
-( cd $W/repo && git apply $D/patch.diff ) || { echo "$D cannot apply"; git -C /repo worktree remove --force $W/repo; rm -rf $W; exit 2; }
+( cd $W/repo && git apply $D/patch.diff ) || { echo "$(basename $D) cannot apply"; cleanup; exit 2; }
 cp -r /verif/harness $W/harness
-rm -f $W/harness/hx/wireoracle.go $W/harness/hx/*_test.go
+rm -f $W/harness/hx/*_test.go
 sed -i "s#=> /repo#=> $W/repo#" $W/harness/go.mod
 cp $W/repo/go.sum $W/harness/go.sum
-( cd $W/harness && go build -tags verif -o $W/diffrun ./cmd/diffrun ) > $W/build.log 2>&1 || { echo "$D build failed: $(tail -3 $W/build.log)"; git -C /repo worktree remove --force $W/repo; rm -rf $W; exit 2; }
-$W/diffrun -prop $P -profiles $PROF -seed 77 -n $N -out $W/replays > $W/out.json 2>$W/err.log
+case "$WHAT" in
+  sys:*)  BIN=sysrun;  ARGS="-mode ${WHAT#sys:} -seed 77 -n $N -out $W/replays" ;;
+  wire:*) BIN=wirerun; ARGS="-mode ${WHAT#wire:} -seed 77 -n $N -out $W/replays" ;;
+  *)      BIN=diffrun; ARGS="-prop $P -profiles $WHAT -seed 77 -n $N -out $W/replays" ;;
+esac
+( cd $W/harness && go build -tags verif -o $W/$BIN ./cmd/$BIN ) > $W/build.log 2>&1 || { echo "$(basename $D) build failed: $(tail -3 $W/build.log)"; cleanup; exit 2; }
+if [ "$BIN" = wirerun ]; then
+  ( cd $W/repo && go build -o $W/redka-server ./cmd/redka ) > $W/build2.log 2>&1 || { echo "$(basename $D) server build failed"; cleanup; exit 2; }
+  ( cd $W/harness && go build -tags verif -o $W/srcfacts ./cmd/srcfacts ) >> $W/build2.log 2>&1
+  export HX_SERVER_BIN=$W/redka-server HX_SRCFACTS="$W/srcfacts -repo $W/repo"
+fi
+timeout 900 $W/$BIN $ARGS > $W/out.json 2>$W/err.log
 rc=$?
 python3 - <<PY
 import json
 try:
     d=json.load(open('$W/out.json'))
     kinds=[f['kind'] for f in (d['failures'] or [])]
-    print("$(basename $D) rc=$rc failures:", kinds, "wall", round(d['wall_s'],1))
+    print("$(basename $D) [$WHAT] rc=$rc failures:", kinds, "wall", round(d['wall_s'],1))
     for f in (d['failures'] or [])[:1]: print("   ", f['detail'][:260].replace("\n"," | "))
 except Exception as e:
-    print("$(basename $D) rc=$rc no summary", e, open('$W/err.log').read()[-300:])
+    print("$(basename $D) [$WHAT] rc=$rc no summary", e, open('$W/err.log').read()[-300:])
 PY
-git -C /repo worktree remove --force $W/repo
-rm -rf $W
+cleanup
